@@ -31,6 +31,9 @@ func propC18scc(a *Analysis, r *Registry, b *B) {
 		g := X.ParamRF(outer, 0)
 		flags := X.ParamRF(outer, 1)
 		maxU := S.Const(ratFromUint64(^uint64(0)))
+		if maxIntOf(a) == "2147483647" {
+			maxU = S.Const(ratFromUint64(uint64(^uint32(0)))) // 32-bit uint (the GOARCH=386 pass)
+		}
 		type ifRec struct {
 			in *ssa.If
 			c  *RF
